@@ -58,7 +58,8 @@ class XReal:
 
     @staticmethod
     def fresh(base):
-        return XReal(z3.Bool(fresh_name(base + '.pinf')), z3.BoolVal(False), z3.Real(fresh_name(base + '.val')))
+        n = z3.Bool(fresh_name(base + '.ninf'))
+        return XReal(z3.And(z3.Bool(fresh_name(base + '.pinf')), z3.Not(n)), n, z3.Real(fresh_name(base + '.val')))
 
 
 PINF = XReal(True, False, 0)
@@ -717,3 +718,13 @@ def cast(v, dtype):
     if dtype == 'bool':
         return truthy(v)
     return v
+
+
+class Record:
+    """opaque python object described only by the attributes / zero-argument methods the code uses"""
+
+    def __init__(self, attrs, name='record'):
+        self.attrs, self.name = attrs, name
+
+    def __repr__(self):
+        return 'Record(%s)' % self.name
